@@ -20,13 +20,14 @@ func init() {
 // error; every sequential From-Markdown route must return that error (recognisable with errors.Is).
 func VerifC14Reader() {
 	n := verifN()
-	_, rows := wellFormedLines(n, verifName)
+	lines, rows := wellFormedLines(n, verifName)
 	k := int(verifChoose("cut", 0, uint(n)))
 	r := &verifReader{lines: rows[:k], err: errVerifRead}
 	w := newVerifWriter()
 	var err error
-	route := verifChoose("route", 0, 5)
+	route := verifChoose("route", 0, 10)
 	verifContext("C14.reader")
+	ctx := context.Background()
 	switch route {
 	case 0:
 		err = OutputFromMarkdown(w, r)
@@ -40,6 +41,35 @@ func VerifC14Reader() {
 		err = WalkFromMarkdown(r, func(*WalkerNode) error { return nil })
 	case 5:
 		err = OutputFromMarkdown(w, r, WithEncodeYAML())
+	// massive mode: the splitter reads; its error has to reach the caller whatever the other stages are doing (the
+	// failure may come before any stage or collector is waiting: k = 0)
+	case 6:
+		err = OutputFromMarkdown(w, r, WithMassive(ctx))
+	case 7:
+		err = OutputFromMarkdown(w, r, WithMassive(ctx), WithEncodeJSON())
+	case 8:
+		err = WalkFromMarkdown(r, func(*WalkerNode) error { return nil }, WithMassive(ctx))
+	case 9:
+		vfsReset()
+		vfsSeal()
+		err = MkdirFromMarkdown(r, WithMassive(ctx), WithTargetDir(vfsTarget()))
+	case 10:
+		vfsReset()
+		// every node of the document exists as a directory: the verification itself has nothing to report, so the
+		// only failure of the call is the reader's
+		nodes, _ := specForest(lines)
+		for i := range nodes {
+			vfsAdd(nodeRel(nodes, i), 1)
+		}
+		vfsSeal()
+		err = VerifyFromMarkdown(r, WithMassive(ctx), WithTargetDir(vfsTarget()))
+	}
+	if route >= 6 {
+		verifAssert(err != nil, "C14.reader.nonnil/massive")
+		verifAssert(errors.Is(err, errVerifRead), "C14.reader.is/massive")
+		verifAssert(verifQuiesce() == 0, "C14.reader.noleak")
+		verifReach("C14.reader.end")
+		return
 	}
 	verifAssert(err != nil, "C14.reader.nonnil")
 	verifAssert(errors.Is(err, errVerifRead), "C14.reader.is")
